@@ -88,7 +88,7 @@ def draw_case_scenario(seed, tier, force=None):
 
 
 def gen_cases(prop, seed, tier):
-    n = 400 if tier == "quick" else 12000
+    n = 700 if tier == "quick" else 12000
     cases = []
     for i in range(n):
         ss = stream_seeds(seed, prop, i)
